@@ -22,6 +22,7 @@ SIM = VERIF / 'sim'
 LIBASAN = '/usr/lib/gcc/x86_64-linux-gnu/12/libasan.so'
 
 _FLAGS = {
+    'cov': ['-O0', '-g', '--coverage'],
     'plain': ['-O2'],
     'asan': ['-O1', '-g', '-fsanitize=address,undefined', '-fno-sanitize-recover=all', '-fno-omit-frame-pointer'],
     'shim': ['-O2'],
@@ -48,6 +49,8 @@ def build_fjcore(variant: str = 'plain') -> Path:
     src = SRC.read_bytes()
     shim = variant in ('shim', 'asanshim')
     extra = b''
+    if variant == 'cov':
+        extra = (SIM / 'covdump.c').read_bytes()
     if shim:
         extra = (SIM / 'alloc_shim.h').read_bytes() + (SIM / 'alloc_shim.c').read_bytes()
     key = _hash(src, ' '.join(flags).encode(), extra, sys.version.encode())
@@ -68,6 +71,14 @@ def build_fjcore(variant: str = 'plain') -> Path:
         subprocess.run(['gcc', '-shared'] + flags + [str(obj_core), str(obj_shim), '-o', str(tmp)], check=True)
         obj_core.unlink()
         obj_shim.unlink()
+    elif variant == 'cov':
+        # coverage build: object + notes file live in the build directory (gcov reads them from there)
+        obj = out_dir / '_fjcore.o'
+        subprocess.run(['gcc', '-c', '-fPIC', '-fwrapv', '-w', '-I', _include()] + flags + [str(SRC), '-o', str(obj)],
+                       check=True, cwd=out_dir)
+        obj2 = out_dir / 'covdump.o'
+        subprocess.run(['gcc', '-c', '-fPIC', str(SIM / 'covdump.c'), '-o', str(obj2)], check=True)
+        subprocess.run(['gcc', '-shared', '--coverage', str(obj), str(obj2), '-o', str(tmp)], check=True)
     else:
         subprocess.run(common + [str(SRC), '-o', str(tmp)], check=True)
     os.replace(tmp, so)
